@@ -94,12 +94,12 @@ declaration, the schema read back from the compiled descriptors allows exactly t
 source declaration allows (normalisations N1–N4, N6 are semantic no-ops; enum names are compared
 by number, see `C12_equiv`). -/
 theorem C04_reflected_same_meaning (M : Matcher) (hM : ∀ x, M.run id62Pattern x = id62Shape x)
-    (p q : Property) (h : WFField p = true) (hne : p.schema.item.isEnum = false)
+    (optPres : Bool) (p q : Property) (h : WFField p = true) (hne : p.schema.item.isEnum = false)
     (hq : roundtrip p = .ok q) (v : FieldVal) :
-    j5Accepts M q v = j5Accepts M p v := by
+    j5Accepts M optPres q v = j5Accepts M optPres p v := by
   rw [field_roundtrip p h] at hq
   cases hq
-  exact j5Accepts_norm M hM p hne v
+  exact j5Accepts_norm M hM optPres p hne v
 
 /-- normalisation is idempotent on integer rules -/
 theorem C04_norm_int_idem (r : IntRules) : normIntRules (normIntRules r) = normIntRules r := by
